@@ -10,7 +10,7 @@ from ..core.fde import IndexOutOfRange, Obj, Raised, Undecided
 from ..core.findings import Report
 from ..core.loader import Repo
 from . import c14, c20
-from .encodings import GRAPHS, Canon, Instance, RefArray, compare, projection
+from .encodings import work_now, GRAPHS, Canon, Instance, RefArray, compare, projection
 from .graphnative import GRAPH
 
 
@@ -191,9 +191,9 @@ def run_family(repo: Repo, rep: Report, label: str, fname: str, native: bool, re
         rep.ok("ENC-S", f"{label}: constraint set equals the reference schema on {n_ok} graphs and the passed-vertex array is returned", points=n_ok)
         return
     undecided = None
-    t0 = time.time()
+    t0 = work_now()
     for gname, n, edges, inst, diff, ret_ids in sorted(deviating, key=lambda d: (d[1] > 4, len(d[2]), d[1])):
-        if time.time() - t0 > 40:
+        if work_now() - t0 > 40:
             break
         if ret_ids is None or any(i is None for i in ret_ids):
             rep.finding("ENC-S", GRAPH, "_" + fname, f"{label} result", f"{label} on graph '{gname}': {diff}")
